@@ -51,6 +51,122 @@ def register(reg):
     for n, f in ((0, 1), (1, 1), (2, 2), (3, 6)):
         reg.contract(UT, "factorial", PROP, name='n%d' % n, sorts={"n": "int"}, requires=["n == %d" % n], inline=['factorial'],
             ensures=[("value", "result == %d" % f)], modifies=[])
+    register_evaluate1d(reg)
+
+
+# ---------------------------------------------------------------------------------------------- Caching1D._evaluate: representation invariant
+def _pyarray_zeros(eng, st, fr, recv, args, kwargs):
+    """numpy C-API PyArray_ZEROS(nd, dims, NPY_FLOAT64, 0): fresh array of nd (1 or 2) dimensions, four entries per dimension in this code, all 0.0"""
+    import z3
+    from pyvc.values import concrete
+    nd = concrete(args[0])
+    if nd not in (1, 2):
+        from pyvc.values import Unsupported
+        raise Unsupported('PyArray_ZEROS with nd=%r' % (nd,))
+    o = eng.new_obj(st, 'ndarray', 'arr', 'real', nd, name='zeros%dd' % nd)
+    eng.counter += 1
+    i, j = z3.Int('i!z%d' % eng.counter), z3.Int('j!z%d' % eng.counter)
+    if nd == 1:
+        st.heap['$len'] = z3.Store(eng.field(st, '$len'), o.ref, z3.IntVal(4))
+        st.heap['$d1:real'] = z3.Store(eng.field(st, '$d1:real'), o.ref, z3.Lambda([i], z3.RealVal(0)))
+    else:
+        st.heap['$n0'] = z3.Store(eng.field(st, '$n0'), o.ref, z3.IntVal(4))
+        st.heap['$n1'] = z3.Store(eng.field(st, '$n1'), o.ref, z3.IntVal(4))
+        st.heap['$d2:real'] = z3.Store(eng.field(st, '$d2:real'), o.ref, z3.Lambda([i, j], z3.RealVal(0)))
+    return o
+
+
+def _pyarray_simplenew4(eng, st, fr, recv, args, kwargs):
+    """numpy C-API PyArray_SimpleNew(1, &size, NPY_FLOAT64) with size == 4: fresh UNINITIALISED array of four doubles (arbitrary contents)"""
+    import z3
+    o = eng.new_obj(st, 'ndarray', 'arr', 'real', 1, name='simplenew')
+    st.heap['$len'] = z3.Store(eng.field(st, '$len'), o.ref, z3.IntVal(4))
+    return o
+
+
+def _np_solve4(eng, st, fr, recv, args, kwargs):
+    """numpy.linalg.solve(A, b) for a 4x4 system: fresh array r of length 4 with r[k] = SOLVE4(k, A[0,0], ..., A[3,3], b[0], ..., b[3]) - an
+    UNINTERPRETED function of the twenty numbers handed over (so: a deterministic function of the matrix and vector CONTENTS, nothing else)"""
+    import z3
+    A, b = args[0], args[1]
+    cells = [eng.arr_read(st, A, [z3.IntVal(r), z3.IntVal(c)]) for r in range(4) for c in range(4)] + [eng.arr_read(st, b, [z3.IntVal(r)]) for r in range(4)]
+    f = z3.Function('G_SOLVE4', z3.IntSort(), *([z3.RealSort()] * 20), z3.RealSort())
+    o = eng.new_obj(st, 'ndarray', 'arr', 'real', 1, name='solution')
+    st.heap['$len'] = z3.Store(eng.field(st, '$len'), o.ref, z3.IntVal(4))
+    eng.counter += 1
+    k = z3.Int('k!s%d' % eng.counter)
+    st.heap['$d1:real'] = z3.Store(eng.field(st, '$d1:real'), o.ref, z3.Lambda([k], f(k, *cells)))
+    return o
+
+
+def register_evaluate1d(reg):
+    # ghost definitions: everything below is a function of the IMMUTABLE configuration (grids, normalisation constants, wrapped function) and of
+    # the interval index - never of the cache arrays (data_view, coeffs_view, calculated_view)
+    G = {
+        "F(u)": "self.function.evaluate(self.x_domain_view[u])",                       # the wrapped function at sampling node u
+        "ND(u)": "(F(u) - self.data_min) * self.data_delta_inv",                         # ... normalised
+        "X(u)": "self.x_view[u]", "X2(u)": "self.x2_view[u]", "X3(u)": "self.x3_view[u]",
+        "SL(u)": "(ND(u + 1) - ND(u - 1)) / (X(u + 1) - X(u - 1))",                     # centred-difference slope at node u
+        # normalised cubic of interval i (between nodes i and i + 1): value and slope constraints at both ends, solved by numpy
+        "NC(k, i)": "SOLVE4(k, 1, X(i), X2(i), X3(i), 0, 1, 2 * X(i), 3 * X2(i), 1, X(i + 1), X2(i + 1), X3(i + 1), 0, 1, 2 * X(i + 1), 3 * X2(i + 1), "
+                    "ND(i), SL(i), ND(i + 1), SL(i + 1))",
+        "T0()": "-self.x_delta_inv * self.x_min",
+        "D0(i)": "NC(0, i) + NC(1, i) * T0() + NC(2, i) * T0() * T0() + NC(3, i) * T0() * T0() * T0()",
+        "D1(i)": "NC(1, i) + 2 * T0() * NC(2, i) + 3 * T0() * T0() * NC(3, i)",
+        "D2(i)": "2 * NC(2, i) + 6 * T0() * NC(3, i)",
+        "D3(i)": "6 * NC(3, i)",
+        # de-normalised coefficients (Taylor re-centring, lemma taylor_recentring) of interval i
+        "K0(i)": "self.data_delta * D0(i) + self.data_min",
+        "K1(i)": "self.data_delta * (self.x_delta_inv * D1(i))",
+        "K2(i)": "self.data_delta * (self.x_delta_inv * self.x_delta_inv / 2 * D2(i))",
+        "K3(i)": "self.data_delta * (self.x_delta_inv * self.x_delta_inv * self.x_delta_inv / 6 * D3(i))",
+    }
+    INV = [
+        ("arrays", "not is_none(self.x_domain_view) and not is_none(self.x_view) and not is_none(self.x2_view) and not is_none(self.x3_view) and "
+                   "not is_none(self.data_view) and not is_none(self.coeffs_view) and not is_none(self.calculated_view) and not is_none(self.function)"),
+        # the sample store is an array of its own (writing a sample changes no grid)
+        ("sample_store_separate", "not same(self.data_view, self.x_domain_view) and not same(self.data_view, self.x_view) and "
+                                  "not same(self.data_view, self.x2_view) and not same(self.data_view, self.x3_view)"),
+        ("sizes", "self.top_index_x >= 3 and length(self.x_domain_view) == self.top_index_x + 1 and length(self.x_view) == self.top_index_x + 1 and "
+                  "length(self.x2_view) == self.top_index_x + 1 and length(self.x3_view) == self.top_index_x + 1 and "
+                  "length(self.data_view) == self.top_index_x + 1 and length(self.calculated_view) == self.top_index_x - 2 and "
+                  "length(self.coeffs_view, 0) == self.top_index_x - 2 and length(self.coeffs_view, 1) == 4"),
+        # a sampled node holds the normalised value of the wrapped function AT THAT NODE (NaN = not sampled yet)
+        ("samples", "forall(u, 0 <= u and u <= self.top_index_x, isnan(self.data_view[u]) or self.data_view[u] == ND(u))"),
+        # a cell flagged as calculated holds the coefficients of ITS interval
+        ("cells", "forall(p, 0 <= p and p < self.top_index_x - 2 and self.calculated_view[p] != 0, "
+                  "self.coeffs_view[p, 0] == K0(p + 1) and self.coeffs_view[p, 1] == K1(p + 1) and "
+                  "self.coeffs_view[p, 2] == K2(p + 1) and self.coeffs_view[p, 3] == K3(p + 1))"),
+    ]
+    reg.contract(C1, "Caching1D._evaluate", PROP, name='representation', sorts={"px": "real", "i_x": "int"},
+        attrs={"calculated_view": "arr:int:1", "coeffs_view": "arr:real:2"},
+        consts={"SOLVE4": "fn:int," + ",".join(["real"] * 20) + "->real"},
+        ghost=G,
+        externals={                   'PyArray_ZEROS()': {'kind': 'custom', 'fn': _pyarray_zeros, 'doc': 'numpy C-API PyArray_ZEROS: fresh zero-filled 4 / 4x4 array'},
+                   'PyArray_SimpleNew()': {'kind': 'custom', 'fn': _pyarray_simplenew4, 'doc': 'numpy C-API PyArray_SimpleNew: fresh uninitialised array of 4 doubles'},
+                   'solve': {'kind': 'custom', 'fn': _np_solve4, 'doc': 'numpy.linalg.solve: deterministic function SOLVE4 of the 16 + 4 numbers handed over (uninterpreted)'},
+                   'Function1D.evaluate': {'kind': 'pure', 'result': 'real', 'doc': 'wrapped function: pure'}},
+        axioms=["forall(x, not isnan(self.function.evaluate(x)), x='real')"],
+        requires=[c for _, c in INV] + ["1 <= i_x and i_x <= self.top_index_x - 2"],
+        inline=['Caching1D._evaluate_polynomial_derivative', 'derivatives_array', 'factorial'],
+        # the sampling loop by invariant (it branches on the NaN sentinel); the two fixed-length assembly / de-normalisation loops are unrolled exactly
+        loops={0: dict(invariant=["unchanged_except('$d1:real', self.data_view)",
+                                  "forall(v, 0 <= v and v <= self.top_index_x, isnan(self.data_view[v]) or self.data_view[v] == ND(v))",
+                                  "forall(v, i_x - 1 <= v and v < u, self.data_view[v] == ND(v))"])},
+        flags={'unroll_symbolic_range': True, 'nan_predicate': True},
+        ensures=[("inv." + n, c) for n, c in INV] + [
+            # HISTORY INDEPENDENCE: the value is the cubic of interval i_x with coefficients that are a function of the configuration only
+            ("value_is_function_of_configuration_and_point",
+             "result == K0(i_x) + K1(i_x) * px + K2(i_x) * px * px + K3(i_x) * px * px * px"),
+            ("dbg.data", "self.data_view[i_x] == ND(i_x) and self.data_view[i_x + 1] == ND(i_x + 1) and self.data_view[i_x - 1] == ND(i_x - 1) and self.data_view[i_x + 2] == ND(i_x + 2)"),
+            ("dbg.k3", "self.coeffs_view[i_x - 1, 3] == K3(i_x)"),
+            ("dbg.k2", "self.coeffs_view[i_x - 1, 2] == K2(i_x)"),
+            ("dbg.k1", "self.coeffs_view[i_x - 1, 1] == K1(i_x)"),
+            ("dbg.k0", "self.coeffs_view[i_x - 1, 0] == K0(i_x)"),
+            ("configuration_kept", "unchanged('x_domain_view:ref') and unchanged('x_view:ref') and unchanged('x2_view:ref') and unchanged('x3_view:ref') and "
+                                   "unchanged('function:ref') and unchanged('data_min:real') and unchanged('data_delta:real') and "
+                                   "unchanged('data_delta_inv:real') and unchanged('x_delta_inv:real') and unchanged('x_min:real') and unchanged('top_index_x:int')")],
+        modifies=None)
 
 
 def _lemmas(ctx):
